@@ -636,8 +636,9 @@ class C15(Check):
 
     def ok_result(self, tree, ctx, nlines):
         ops = sorted({k for k in _ops(tree)})
+        kids = sorted({k for c in tree[1:] for k in _ops(c) if len(tree) > 1} & set(ALL_OPS))
         return {"outcome": "ok", "viol": [], "nontrivial": True,
-                "tags": [f"op{o}" for o in ops] + [f"ctx-{ctx}", f"depth{tdepth(tree)}"],
+                "tags": [f"op{o}" for o in ops] + [f"child-{o}" for o in kids] + [f"ctx-{ctx}", f"depth{tdepth(tree)}"],
                 "counters": {"states": nlines + 1, "transitions": nlines}}
 
     def run_group(self, cases):
@@ -770,6 +771,10 @@ class C15(Check):
         for o in ALL_OPS + ["v", "u", "vb", "ub", "k2", "ct", "cf", "cn", "cb", "ei", "eb", "fi", "fb", "ob", "obn", "obv"]:
             if not stats["tags"].get(f"op{o}"):
                 errs.append(f"vacuity: node kind {o} never executed")
+        for o in ALL_OPS:
+            # every operator must also occur BELOW another node (a generator that only ever puts a node kind at the root hides its interactions)
+            if not stats["tags"].get(f"child-{o}"):
+                errs.append(f"vacuity: node kind {o} never occurs as the child of another node")
         for f in OPA_FORMS:
             if not stats["tags"].get("opa-" + f):
                 errs.append(f"vacuity: op-assignment target form {f} never executed (rejected by the compiler?)")
